@@ -409,6 +409,9 @@ fn format(opt: opt::Opt) -> Result<i32> {
 
     let walker = walker_builder.build();
     let mut seen_files = HashSet::new();
+    // An error which stops the traversal. We must not return before the thread pool has finished:
+    // exiting the process while a worker is writing a file would leave that file truncated.
+    let mut walk_error: Option<anyhow::Error> = None;
 
     for result in walker {
         match result {
@@ -420,12 +423,25 @@ fn format(opt: opt::Opt) -> Result<i32> {
                     let should_skip_format = match &opt.stdin_filepath {
                         Some(path) => {
                             opt.respect_ignores
-                                && path_is_stylua_ignored(path, opt.search_parent_directories)?
+                                && match path_is_stylua_ignored(path, opt.search_parent_directories)
+                                {
+                                    Ok(ignored) => ignored,
+                                    Err(err) => {
+                                        walk_error = Some(err);
+                                        break;
+                                    }
+                                }
                         }
                         None => false,
                     };
 
-                    let config = config_resolver.load_configuration_for_stdin()?;
+                    let config = match config_resolver.load_configuration_for_stdin() {
+                        Ok(config) => config,
+                        Err(err) => {
+                            walk_error = Some(err);
+                            break;
+                        }
+                    };
 
                     #[cfg(feature = "verif")]
                     let verif_idx = verif::next_worker_index();
@@ -490,12 +506,24 @@ fn format(opt: opt::Opt) -> Result<i32> {
                         // we should check .styluaignore
                         if is_explicitly_provided(opt.as_ref(), &path)
                             && should_respect_ignores(opt.as_ref(), &path)
-                            && path_is_stylua_ignored(&path, opt.search_parent_directories)?
+                            && match path_is_stylua_ignored(&path, opt.search_parent_directories) {
+                                Ok(ignored) => ignored,
+                                Err(err) => {
+                                    walk_error = Some(err);
+                                    break;
+                                }
+                            }
                         {
                             continue;
                         }
 
-                        let config = config_resolver.load_configuration(&path)?;
+                        let config = match config_resolver.load_configuration(&path) {
+                            Ok(config) => config,
+                            Err(err) => {
+                                walk_error = Some(err);
+                                break;
+                            }
+                        };
 
                         #[cfg(feature = "verif")]
                         let verif_idx = verif::next_worker_index();
@@ -536,6 +564,10 @@ fn format(opt: opt::Opt) -> Result<i32> {
 
     drop(tx);
     pool.join();
+
+    if let Some(err) = walk_error {
+        return Err(err);
+    }
 
     // Output summary
 
